@@ -517,6 +517,15 @@ func inOrder(e Ev, gets ...func()) {
 	}
 }
 
+// nilIfEmpty: a zero-length byte argument is handed over as a nil slice for the events whose order key is odd
+// (nil and empty are the same argument to a function that takes a byte string).
+func nilIfEmpty(e Ev, b []byte) []byte {
+	if len(b) == 0 && GI0(e["ord"])%2 == 1 {
+		return nil
+	}
+	return b
+}
+
 // GI0 is GI with 0 for an absent field.
 func GI0(v interface{}) int {
 	if v == nil {
